@@ -156,6 +156,8 @@ def biclosed(E, depth):
         kind = E.choice('kind', ['FA', 'BA', 'FC', 'BC', 'FX', 'BX', 'Curry',
                                  'Curry-left', 'composite'])
         a, b = bictypes(E, depth, 'a'), bictypes(E, depth, 'b')
+        if kind in ('FA', 'BA') and E.choice('empty-arg', [False, True]):
+            b = B.Ty()          # application to the empty type
         if kind == 'FA':
             d = B.FA(a << b)
         elif kind == 'BA':
